@@ -26,7 +26,7 @@ META = {
 ASPECT = "C06"
 
 
-HUGE_PROFILE = {"huge": True, "ops": ["shift_common", "shift_common_v", "append", "filtered", "reindexed", "copy",
+HUGE_PROFILE = {"huge": True, "first_ops": ["shift_common_v"], "ops": ["shift_common", "shift_common_v", "append", "filtered", "reindexed", "copy",
                                         "column_stack", "update", "sliced", "observe"]}
 
 
